@@ -123,3 +123,26 @@ def node_session(v, pid, cmds, tier, seed, rule, prefixes=None, timeout=3000, ra
         v.coverage.setdefault("commands", {})[cmd] = dict(wall_s=round(res["_wall"], 1), **{k: n for k, n in res.get("stats", {}).items() if k in ("evaluations", "distinct_nontrivial")})
         results[cmd] = res
     return s, results
+
+
+def compare_cases(v, s, results, pid, cases, seed, tier):
+    """For each command with a cases.v, evaluate the model in the kernel; a non-empty mismatch list is a violation of the
+    correspondence (reported with no failing input unless the direct oracles of the same run already found one)."""
+    v.coverage.setdefault("model_vs_impl_mismatches", {})
+    n = 0
+    for cmd, (fn, thm) in cases.items():
+        res = results.get(cmd)
+        if res is None:
+            continue
+        path = os.path.join(res["_work"], "cases.v")
+        rc, out = vlib.run_coq_cases(path)
+        val = vlib.parse_result_list(out, "R") if rc == 0 else None
+        if val is None:
+            raise RuntimeError("model evaluation failed for %s:\n%s" % (path, out[-3000:]))
+        v.coverage["model_vs_impl_mismatches"][cmd] = val
+        n += res.get("stats", {}).get("evaluations", 0)
+        if val != "[]" and not v.violations:
+            v.violation("%s:correspondence:%s" % (pid, cmd),
+                        "the Coq model (%s) and the implementation disagree on cases %s of `%s`" % (fn, val[:300], cmd),
+                        dict(kind="correspondence", theorem=thm, mismatches=val, seed=seed, tier=tier, cases_file_excerpt=open(path).read()[:3000]), no_input=True)
+    v.coverage["traces_validated_against_impl"] = n
